@@ -671,6 +671,14 @@ func (r *rabinReplay) requirements(i int, req *RReq) {
 			fin = append(fin, h)
 		}
 	}
+	// at least t dealers are honest and an honest dealer is never disqualified: "not certified" at an honest node
+	// means honest dealers were not counted as qualified
+	for _, h := range r.honest() {
+		if e := r.errs[h]; e != nil && strings.Contains(e.Error(), "not certified") {
+			r.violate("honest-dealer-disqualified", fmt.Sprintf("node %d: %v although %d honest dealers (threshold %d) took part; its QUAL is %v",
+				h, e, len(r.honest()), r.t, r.gens[h].QUAL()), i, map[string]any{"node": h})
+		}
+	}
 	if req.AllHonest {
 		for _, h := range r.honest() {
 			if r.outs[h] == nil {
@@ -795,14 +803,18 @@ func RunRabin(cfg Config, res *core.Result) error {
 			h uint64
 			l []byte
 		}
-		hs := make([]hl, len(lines))
-		for i, l := range lines {
+		allHonest, rest := splitHonest(lines)
+		hs := make([]hl, len(rest))
+		for i, l := range rest {
 			hs[i] = hl{core.Hash64(fmt.Sprint(cfg.Seed), string(l)), l}
 		}
 		sort.Slice(hs, func(a, b int) bool { return hs[a].h < hs[b].h })
 		res.AddExtra("behaviours_generated", len(lines))
-		lines = lines[:0]
-		for _, x := range hs[:cfg.Max] {
+		lines = append([][]byte(nil), allHonest...)
+		for _, x := range hs {
+			if len(lines) >= cfg.Max {
+				break
+			}
 			lines = append(lines, x.l)
 		}
 	}
